@@ -17,6 +17,7 @@ fn main() {
     let mut mon: Box<dyn Monitor> = match args.cmd.as_str() {
         "c15" => Box::new(fvh::c15::C15 {
             max_len: args.p_u64("max_len", 6) as usize,
+            subset: args.p_bool("subset"),
         }),
         "c02" | "c14r" => Box::new(fvh::c02::C02 {
             only_discipline: args.p_bool("only_discipline"),
@@ -44,6 +45,7 @@ fn main() {
         "c10" => Box::new(fvh::c10::C10 {
             mib: args.p_u64("mib", 8),
             log: args.p_bool("log"),
+            raw: args.p_bool("raw"),
         }),
         "c12" => Box::new(fvh::c12::C12 {
             mode: args.p_str("mode", "wellformed"),
